@@ -210,6 +210,10 @@ class Ctx:
         if kind == 'atan2':
             y, x = payload
             return math.atan2(self.eval_k(y, env), self.eval_k(x, env))
+        if kind == 'cosof':
+            return math.cos(self.eval_k(payload, env))
+        if kind == 'sinof':
+            return math.sin(self.eval_k(payload, env))
         if kind == 'angle':
             c, sn = payload
             return math.atan2(self.eval_k(sn, env), self.eval_k(c, env))
@@ -631,7 +635,11 @@ class Sx:
                 realpart = realpart + c
             else:
                 raise NotEncodable('exp of complex argument with irrational direction')
-        out = Sx.phasor(phase / ctx.kpi, ctx)
+        cs = _angle_cos_sin(phase, ctx) if phase != 0 else None
+        if cs is not None:
+            out = Sx.from_k(cs[0], ctx) + Sx({((), _HALF, ctx.K0): cs[1]}, ctx) if cs[1] != 0 else Sx.from_k(cs[0], ctx)
+        else:
+            out = Sx.phasor(phase / ctx.kpi, ctx)
         if realpart != 0:
             out = out * real_exp(realpart, ctx)
         return out
@@ -643,6 +651,8 @@ class Sx:
         cs = _angle_cos_sin(k, self.ctx)
         if cs is not None:
             return Sx.from_k(cs[0], self.ctx)
+        if _mentions_angle(k, self.ctx):
+            return Sx.from_k(self.ctx.new_derived('cosof', k, {'lo': -1, 'hi': 1}), self.ctx)
         ph = k / self.ctx.kpi
         return (Sx.phasor(ph, self.ctx) + Sx.phasor(-ph, self.ctx)) * _HALF
 
@@ -653,6 +663,8 @@ class Sx:
         cs = _angle_cos_sin(k, self.ctx)
         if cs is not None:
             return Sx.from_k(cs[1], self.ctx)
+        if _mentions_angle(k, self.ctx):
+            return Sx.from_k(self.ctx.new_derived('sinof', k, {'lo': -1, 'hi': 1}), self.ctx)
         ph = k / self.ctx.kpi
         d = Sx.phasor(ph, self.ctx) - Sx.phasor(-ph, self.ctx)
         mi = Sx({((), _HALF, self.ctx.K0): self.ctx.k(Fraction(-1, 2))}, self.ctx)
@@ -686,6 +698,10 @@ class Sx:
         if self.is_real_syntactic():
             raise NotEncodable('abs of a content-dependent real value')
         n2 = reduce_terms(self.abs2())
+        if n2.as_k() is None:
+            kc = to_k_complex(n2)
+            if kc is not None and kc[1] == 0:
+                return Sx.from_k(k_sqrt(kc[0], ctx), ctx)
         return n2.sqrt()
 
     def floor(self):
@@ -1016,6 +1032,53 @@ def real_exp(k, ctx):
     return Sx.from_k(g ** int(q), ctx)
 
 
+def _mentions_angle(k, ctx):
+    """True if the K element involves an angle atom (but is not an integer multiple of one): its cos/sin are kept as
+    opaque atoms in [-1,1] (an over-approximation: candidate counterexamples are confirmed by replay)."""
+    for name in ctx.derived_names[:ctx.next_derived]:
+        if ctx.derived_def[name][0] != 'angle':
+            continue
+        gi = ctx.gen_index[name]
+        if (k.numer.degree(gi) if k.numer != 0 else 0) > 0 or k.denom.degree(gi) > 0:
+            return True
+    return False
+
+
+def root_of_unity_k(r, ctx):
+    """(cos(pi r), sin(pi r)) as K elements for rational r with 12 r integer (sqrt(2), sqrt(3) atoms), else None."""
+    r = Fraction(r) % 2
+    if (r * 12).denominator != 1:
+        return None
+    k = int(r * 12)            # angle = k * pi/12 = k * 15 degrees
+    s2 = k_sqrt(ctx.k(2), ctx)
+    s3 = k_sqrt(ctx.k(3), ctx)
+    half = ctx.k(Fraction(1, 2))
+    z8 = (s2 * half, s2 * half)            # E(pi/4)
+    z12 = (s3 * half, half)                # E(pi/6)
+    # E(pi/12) = E(pi/4) * conj(E(pi/6))
+    base = (z8[0] * z12[0] + z8[1] * z12[1], z8[1] * z12[0] - z8[0] * z12[1])
+    c, sn = ctx.K1, ctx.K0
+    for _ in range(k):
+        c, sn = c * base[0] - sn * base[1], c * base[1] + sn * base[0]
+        c, sn = _reduce_sqrt_k(c, ctx), _reduce_sqrt_k(sn, ctx)
+    return c, sn
+
+
+def to_k_complex(x):
+    """(re, im) as K elements for a content-free value whose phasors are roots of unity of order dividing 24, else None."""
+    ctx = x.ctx
+    re, im = ctx.K0, ctx.K0
+    for (m, r, p), c in x.t.items():
+        if m or p != 0:
+            return None
+        cs = root_of_unity_k(r, ctx)
+        if cs is None:
+            return None
+        re = re + c * cs[0]
+        im = im + c * cs[1]
+    return _reduce_sqrt_k(re, ctx), _reduce_sqrt_k(im, ctx)
+
+
 def _angle_cos_sin(k, ctx):
     """If k == m * (angle atom) for an integer m, return (cos, sin) of it as K elements, else None."""
     if not ctx.next_derived or k == 0:
@@ -1074,6 +1137,12 @@ def sx_arctan2(y, x):
     y = Sx.const(y, ctx)
     x = Sx.const(x, ctx)
     ky, kx = y.as_k(), x.as_k()
+    if ky is None:
+        kc = to_k_complex(y)
+        ky = kc[0] if kc is not None and kc[1] == 0 else None
+    if kx is None:
+        kc = to_k_complex(x)
+        kx = kc[0] if kc is not None and kc[1] == 0 else None
     if ky is None or kx is None:
         raise NotEncodable('arctan2 of content-dependent values')
     fy, fx = y.as_fraction(), x.as_fraction()
